@@ -1,8 +1,8 @@
 #!/verif/.venv/bin/python
 # Replay of a solver counterexample against the unmodified code (no shims).
-# property=C12 kernel=layout_sym label=k2:layout_keeps_every_trap
+# property=C12 kernel=autolayout label=k4:automatic_layout_register_is_accepted
 import sys
 sys.path[:0] = ['/repo' + "/pulser-core", '/repo' + "/pulser-simulation", "/verif"]
 from symx.replay import replay
-sys.exit(replay(check='checks.c12', kernel='layout_sym', shape={'mind': 0.0, 'range': 1e-05},
-                assignment={'tx': -5, 'ty': -5}, label='k2:layout_keeps_every_trap'))
+sys.exit(replay(check='checks.c12', kernel='autolayout', shape={'n': 2, 'opt': True},
+                assignment={'max_layout_filling': '1/1', 'optimal_layout_filling': '205/256'}, label='k4:automatic_layout_register_is_accepted'))
